@@ -141,13 +141,24 @@ Qed.
 Lemma ss_retry reuse h s : same_view s (retry reuse h s).
 Proof. unfold retry. cbn. destruct (is_some (fexc s)); repeat split. Qed.
 
+Lemma ss_start_chain s : SStep s (start_chain true s).
+Proof. unfold start_chain. destruct (ks_hosts (pools s)); [apply ss_set_final_result|left; repeat split]. Qed.
+
+Lemma ss_ks_report c h err s : SStep s (ks_report true c h err s).
+Proof.
+  unfold ks_report. destruct (nth_error (chains s) c) as [[hs e]|]; [|apply SStep_refl].
+  destruct (mem_z h hs); [|apply SStep_refl]. destruct (remove_z h hs); [|left; repeat split].
+  destruct (e || err); (eapply SStep_same_l; [|first [apply ss_set_final_exception|apply ss_set_final_result]]; repeat split).
+Qed.
+
 Lemma ss_set_result a h k s : SStep s (set_result true a h k s).
 Proof.
-  destruct k as [more| |d| |]; cbn [set_result].
+  destruct k as [more| |d| | |]; cbn [set_result].
   - eapply SStep_same_l; [|apply ss_set_final_result]. repeat split.
   - apply ss_set_final_result.
   - destruct d; try (left; apply ss_retry); [apply ss_set_final_exception|apply ss_set_final_result].
   - apply ss_set_final_exception.
+  - apply ss_start_chain.
   - eapply SStep_same_l; [apply sv_cancel|apply ss_set_final_exception].
 Qed.
 
@@ -191,7 +202,7 @@ Proof. intros H. eapply SInv_SStep; [exact H|left; apply sv_start_timer]. Qed.
 
 Lemma SInv_step pf s o : SInv s -> SInv (step true pf s o).
 Proof.
-  intros H. destruct o as [|ps|d|a k|k|k|pl| |]; cbn [step].
+  intros H. destruct o as [|ps|d|a k|k|k|pl| | |c h err]; cbn [step]; [| | | | | | | | |eapply SInv_SStep; [exact H|apply ss_ks_report]].
   - eapply SInv_SStep; [exact H|]. eapply SStep_same_l; [|apply ss_send_request]. repeat split.
   - eapply SInv_SStep; [exact H|left; repeat split].
   - eapply SInv_SStep; [exact H|left; repeat split].
@@ -244,7 +255,8 @@ Variable g : bool.
 
 (* fields the liveness invariants look at, besides the final outcome *)
 Definition frameL (s s' : state) : Prop :=
-  attempts s' = attempts s /\ cur_conn s' = cur_conn s /\ queue s' = queue s /\ paging s' = paging s /\ tfired s' = tfired s.
+  attempts s' = attempts s /\ cur_conn s' = cur_conn s /\ queue s' = queue s /\ paging s' = paging s /\ tfired s' = tfired s
+  /\ chains s' = chains s.
 
 Lemma frameL_refl s : frameL s s.
 Proof. repeat split. Qed.
@@ -273,7 +285,7 @@ Proof.
 Qed.
 
 Lemma AStep_frame s s' : frameL s s' -> AStep s s'.
-Proof. intros (h1 & h2 & h3 & h4 & h5). unfold AStep. rewrite h1, h2, h3, h4. intuition. Qed.
+Proof. intros (h1 & h2 & h3 & h4 & h5 & h6). unfold AStep. rewrite h1, h2, h3, h4. intuition. Qed.
 
 Lemma AInv_AStep s s' : AInv s -> AStep s s' -> AInv s'.
 Proof.
@@ -285,7 +297,7 @@ Qed.
 (* outcome step: either an outcome exists afterwards, or only open attempts were added *)
 Definition BStep (s s' : state) : Prop :=
   final_set s' = true
-  \/ (tfired s' = tfired s /\ final_set s' = final_set s /\ queue s' = queue s
+  \/ (tfired s' = tfired s /\ final_set s' = final_set s /\ queue s' = queue s /\ chains s' = chains s
       /\ exists ext, attempts s' = attempts s ++ ext /\ forallb aopen ext = true).
 
 Definition BInv (s : state) : Prop :=
@@ -296,14 +308,14 @@ Proof. right. repeat split. exists []. rewrite app_nil_r. split; reflexivity. Qe
 
 Lemma BStep_frame s s' : frameL s s' -> fres s' = fres s -> fexc s' = fexc s -> BStep s s'.
 Proof.
-  intros (h1 & h2 & h3 & h4 & h5) hr he. right. unfold final_set. rewrite hr, he, h1, h3, h5. repeat split.
+  intros (h1 & h2 & h3 & h4 & h5 & h6) hr he. right. unfold final_set. rewrite hr, he, h1, h3, h5, h6. repeat split.
   exists []. rewrite app_nil_r. split; reflexivity.
 Qed.
 
 Lemma BStep_trans s1 s2 s3 : BStep s1 s2 -> BStep s2 s3 -> BStep s1 s3.
 Proof.
-  intros H12 [H|(b1 & b2 & b3 & ext2 & b4 & b5)]; [left; assumption|].
-  destruct H12 as [H|(a1 & a2 & a3 & ext1 & a4 & a5)]; [left; congruence|].
+  intros H12 [H|(b1 & b2 & b3 & b6 & ext2 & b4 & b5)]; [left; assumption|].
+  destruct H12 as [H|(a1 & a2 & a3 & a6 & ext1 & a4 & a5)]; [left; congruence|].
   right. repeat split; try congruence. exists (ext1 ++ ext2). rewrite b4, a4, app_assoc, forallb_app, a5, b5.
   split; reflexivity.
 Qed.
@@ -314,10 +326,10 @@ Proof.
 Qed.
 
 Lemma all_answered_app_open s s' ext :
-  attempts s' = attempts s ++ ext -> forallb aopen ext = true -> queue s' = queue s ->
+  attempts s' = attempts s ++ ext -> forallb aopen ext = true -> queue s' = queue s -> chains s' = chains s ->
   all_answered s' = true -> all_answered s = true /\ ext = [].
 Proof.
-  intros Ha Ho Hq. unfold all_answered. rewrite Ha, Hq, forallb_app.
+  intros Ha Ho Hq Hc. unfold all_answered. rewrite Ha, Hq, Hc, forallb_app.
   destruct ext as [|x ext].
   - rewrite app_nil_r. cbn. rewrite andb_true_r. intros H. split; [exact H|reflexivity].
   - cbn in Ho. apply andb_prop in Ho. destruct Ho as [Hx _]. cbn. rewrite Hx. cbn.
@@ -326,10 +338,10 @@ Qed.
 
 Lemma BInv_BStep s s' : BInv s -> BStep s s' -> BInv s'.
 Proof.
-  intros (i1 & i2) [H|(b1 & b2 & b3 & ext & b4 & b5)]; [split; intros _; exact H|].
+  intros (i1 & i2) [H|(b1 & b2 & b3 & b6 & ext & b4 & b5)]; [split; intros _; exact H|].
   split.
   - rewrite b1, b2. exact i1.
-  - intros H. destruct (all_answered_app_open _ _ _ b4 b5 b3 H) as [H' _]. rewrite b2. apply i2, H'.
+  - intros H. destruct (all_answered_app_open _ _ _ b4 b5 b3 b6 H) as [H' _]. rewrite b2. apply i2, H'.
 Qed.
 
 (* ---- helpers *)
@@ -390,6 +402,9 @@ Proof.
   unfold query. destruct (pool_of _ _); cbn; repeat split; try (intros _; discriminate); try discriminate; try tauto.
 Qed.
 
+Lemma query_chains h s : chains (fst (query h s)) = chains s.
+Proof. unfold query. destruct (pool_of _ _); reflexivity. Qed.
+
 Lemma AStep_tfired b s : AStep s (set_tfired b s).
 Proof. unfold AStep. cbn. tauto. Qed.
 
@@ -443,10 +458,10 @@ Lemma send_loop_B err : forall pl s, BStep s (send_loop g err pl s).
 Proof.
   induction pl as [|h rest IH]; intros s; cbn [send_loop].
   - destruct err; [left; apply final_after_exception|apply BStep_frame; repeat split].
-  - pose proof (query_shape h s) as Hq. destruct (query h s) as [s1 r].
-    destruct Hq as (q1 & q2 & q3 & q4 & q5 & q6 & q7).
+  - pose proof (query_shape h s) as Hq. pose proof (query_chains h s) as Hqc. destruct (query h s) as [s1 r].
+    destruct Hq as (q1 & q2 & q3 & q4 & q5 & q6 & q7). cbn [fst] in Hqc.
     assert (Hs1 : BStep s s1).
-    { right. unfold final_set. rewrite q1, q3, q4, q5. repeat split. destruct r.
+    { right. unfold final_set. rewrite q1, q3, q4, q5, Hqc. repeat split. destruct r.
       - destruct q7 as (q7 & _). exists [mkAtt h true]. split; [exact q7|reflexivity].
       - exists []. rewrite app_nil_r. split; [exact q7|reflexivity]. }
     destruct r.
@@ -507,9 +522,12 @@ Proof. intros k l x H E. subst l. destruct k; discriminate. Qed.
 Lemma LInv_final s' : AInv s' -> final_set s' = true -> LInv s'.
 Proof. intros Ha Hf. split; [exact Ha|]. split; intros _; exact Hf. Qed.
 
+Lemma nth_upd_nth_same {A} (f : A -> A) : forall k l, nth_error (upd_nth k f l) k = option_map f (nth_error l k).
+Proof. induction k as [|k IH]; intros l; destruct l as [|x l]; cbn; try reflexivity. apply IH. Qed.
+
 Lemma LInv_step pf s o : LInv s -> LInv (step g pf s o).
 Proof.
-  intros H. destruct o as [|ps|d|a k|k|k|pl| |]; cbn [step].
+  intros H. destruct o as [|ps|d|a k|k|k|pl| | |c hh err]; cbn [step].
   - (* Send *)
     eapply LInv_steps; [exact H| |].
     + eapply AStep_trans; [|apply send_loop_A]. apply AStep_frame. repeat split.
@@ -541,13 +559,16 @@ Proof.
         + split.
           * exact B1.
           * unfold all_answered. cbn. destruct (queue s); cbn; rewrite andb_false_r; discriminate. }
-    destruct k as [more| |d| |]; cbn [set_result].
+    destruct k as [more| |d| | |]; cbn [set_result].
     + apply Hfin_r. unfold AInv. cbn. repeat split; try tauto.
       * intros _ E. apply upd_nth_nil in E. contradiction.
       * intros _ E. apply upd_nth_nil in E. contradiction.
     + apply Hfin_r, HA1.
     + destruct d; [apply Hretry|apply Hretry|apply Hfin_e, HA1|apply Hfin_r, HA1].
     + apply Hfin_e, HA1.
+    + unfold start_chain. change (pools s1) with (pools s). destruct (ks_hosts (pools s)) as [|h0 hs0]; [apply Hfin_r, HA1|].
+      split; [exact HA1|]. split; [exact B1|].
+      unfold all_answered. cbn [chains set_chains]. rewrite forallb_app. cbn. rewrite !andb_false_r. discriminate.
     + apply Hfin_e. eapply AInv_AStep; [exact HA1|apply AStep_frame, fl_cancel].
   - (* Fire *)
     destruct (nth_error (timers s) k) as [t|]; [|assumption].
@@ -607,10 +628,10 @@ Proof.
     set (s2 := page_timer_reset pf (page_reset pl s)).
     assert (F2 : attempts s2 = attempts s /\ cur_conn s2 = cur_conn s /\ queue s2 = queue s /\ paging s2 = paging s /\ tfired s2 = false).
     { unfold s2, page_timer_reset. destruct pf; [|repeat split].
-      destruct (fl_page_reset (page_reset pl s)) as (c1 & c2 & c3 & c4 & c5).
+      destruct (fl_page_reset (page_reset pl s)) as (c1 & c2 & c3 & c4 & c5 & _).
       rewrite c1, c2, c3, c4, c5. repeat split. }
     destruct F2 as (f1 & f2 & f3 & f4 & f5).
-    destruct (fl_start_timer s2) as (t1 & t2 & t3 & t4 & t5).
+    destruct (fl_start_timer s2) as (t1 & t2 & t3 & t4 & t5 & _).
     set (s3 := start_timer s2) in *.
     pose proof (send_loop_A true (plan s3) s3) as (a1 & a2 & a3 & a4 & a5).
     pose proof (send_loop_B true (plan s3) s3) as HBs.
@@ -628,6 +649,24 @@ Proof.
   - eapply LInv_steps; [exact H|apply AStep_frame|apply BStep_frame]; repeat split.
   - destruct (result_call s); [|assumption].
     eapply LInv_steps; [exact H|apply AStep_frame|apply BStep_frame]; repeat split.
+  - (* KsReport *)
+    unfold ks_report. destruct (nth_error (chains s) c) as [[hs e]|] eqn:En; [|assumption].
+    destruct (mem_z hh hs); [|assumption].
+    destruct H as (HA & (B1 & B2)).
+    set (s1 := set_chains (upd_nth c (fun _ => (remove_z hh hs, e || err)) (chains s)) s).
+    assert (HA1 : AInv s1) by exact HA.
+    destruct (remove_z hh hs) as [|x0 l0] eqn:Er.
+    + destruct (e || err).
+      * apply LInv_final; [|apply final_after_exception].
+        eapply AInv_AStep; [exact HA1|apply AStep_frame, fl_set_final_exception].
+      * apply LInv_final; [|apply final_after_result].
+        eapply AInv_AStep; [exact HA1|apply AStep_frame, fl_set_final_result].
+    + split; [exact HA1|]. split; [exact B1|].
+      intros Hall. exfalso. unfold all_answered in Hall. apply andb_prop in Hall. destruct Hall as (_ & Hall).
+      cbn [chains s1 set_chains] in Hall. rewrite forallb_forall in Hall.
+      assert (Hin : In (x0 :: l0, e || err) (upd_nth c (fun _ => (x0 :: l0, e || err)) (chains s))).
+      { eapply nth_error_In. rewrite nth_upd_nth_same. rewrite En. reflexivity. }
+      specialize (Hall _ Hin). discriminate.
 Qed.
 
 Lemma LInv_init c : LInv (init c).
